@@ -64,6 +64,8 @@ def jobs(tier):
     tr = [(2, 1, False), (2, 2, "scalar"), (2, 1, "mean")] + ([] if q else [(3, 1, False), (2, 1, "auto"), (2, 1, True), (3, 1, "mean")])
     for (D_, rd_, ub_) in tr:
         out.append(("gvc.props.c06", "ob_translation", dict(D=D_, sin=[(0, 0), (1, 0)], sout=[(1, 0), (0, 0)], rd=rd_, use_bias=ub_)))
+    for D_ in ([2] if q else [2, 3]):
+        out.append(("gvc.props.c06", "ob_translation", dict(D=D_, sin=[(0, 0), (1, 0)], sout=[(1, 0), (0, 0)], rd=1, use_bias="auto", upsample=True)))
     # dependency: "g.x" in the statement is the library's action; the obligations use act_spec (owned by C02)
     from .common import dep_jobs
     out += dep_jobs("gvc.props.c02", lambda fn, kw: fn == "ob_entry" and kw["D"] >= 2)
@@ -150,7 +152,7 @@ def ob_layer(D, sin, sout, opt, gs):
     return obs
 
 
-def ob_translation(D, sin, sout, rd, use_bias):
+def ob_translation(D, sin, sout, rd, use_bias, upsample=False):
     """on fully toroidal images (no image dilation) the layer commutes with every cyclic translation (symbolic shift), for an
     ARBITRARY filter bank (no invariance needed) and every weight / bias value"""
     from ..specs.act import shift_sym
@@ -167,7 +169,7 @@ def ob_translation(D, sin, sout, rd, use_bias):
     blocks = {}
     for (k, p) in ftypes:
         n = Atom(sint(f"nf{k}{p}", W.pre), f"nf{k}{p}")
-        blocks[(k, p)] = arr.source(f"F{k}{p}", [n] + [Atom(3)] * D + [Atom(D) for _ in range(k)])
+        blocks[(k, p)] = arr.source(f"F{k}{p}", [n] + [Atom(2 if upsample else 3)] * D + [Atom(D) for _ in range(k)])
     bank = Gm.MultiImage(blocks, D, True)
     ich = {k: Atom(sint(f"ci{k[0]}{k[1]}", W.pre), f"ci{k[0]}{k[1]}") for k in sin}
     och = {k: Atom(sint(f"co{k[0]}{k[1]}", W.pre), f"co{k[0]}{k[1]}") for k in sout}
@@ -178,7 +180,14 @@ def ob_translation(D, sin, sout, rd, use_bias):
 
     def run():
         bigsum.SHIFTS[:] = [(W.spatial[d].ext, tau[d]) for d in range(D)]
-        layer = Lm.ConvContract(isig, osig, bank, use_bias, 1, None, None, rd, key=("key", 0))
+        if upsample:
+            bigsum.SHIFTS[:] += [(mk(zi(W.spatial[d].ext) * 2), mk(zi(tau[d]) * 2)) for d in range(D)]
+        if upsample:
+            # the U-Net's transposed convolution: 2 x 2 bank, image dilation 2, padding ((1,1),)*D: T_t on the coarse grid
+            # becomes T_{2t} on the fine grid
+            layer = Lm.ConvContract(isig, osig, bank, use_bias, 1, ((1, 1),) * D, (2,) * D, 1, key=("key", 0))
+        else:
+            layer = Lm.ConvContract(isig, osig, bank, use_bias, 1, None, None, rd, key=("key", 0))
         for t_ in list(layer.bias.keys()) if isinstance(layer.bias, dict) else []:
             layer.bias[t_] = arr.source(f"BIAS{t_[0]}{t_[1]}", list(arr.lift(layer.bias[t_]).dims))
         return layer(Gm.MultiImage(dict(X), D, True)), layer(Gm.MultiImage(dict(TX), D, True))
@@ -187,12 +196,13 @@ def ob_translation(D, sin, sout, rd, use_bias):
         y0, yt = res
         if list(y0.keys()) != list(yt.keys()):
             return "refuted", f"key lists differ: {list(y0.keys())} vs {list(yt.keys())}", None
+        tout = [mk(zi(v) * 2) for v in tau] if upsample else tau
         try:
-            return cmp_blocks(yt, {t: shift_sym(arr.lift(y0[t]), tau, D, lead=1) for t in y0.keys()}, D, True, list(y0.keys()), "layer(T x) vs T layer(x)")
+            return cmp_blocks(yt, {t: shift_sym(arr.lift(y0[t]), tout, D, lead=1) for t in y0.keys()}, D, True, list(y0.keys()), "layer(T x) vs T layer(x)")
         finally:
             bigsum.SHIFTS[:] = []
 
-    name = f"C06/ConvContract/D={D},in={_fmt(sin)},out={_fmt(sout)},rdil={rd},use_bias={use_bias}/ensures:commutes-with-cyclic-translations"
+    name = f"C06/ConvContract/D={D},in={_fmt(sin)},out={_fmt(sout)},rdil={rd},use_bias={use_bias}{',transposed(2x2,ldil=2)' if upsample else ''}/ensures:commutes-with-cyclic-translations"
     o = guard(name, "ensures", lambda: all_paths(W.pre, run, post), dict(D=D, input=sin, target=sout, rdil=rd, use_bias=str(use_bias)))
     o["replay"] = dict(scenario="layer", model=o.get("model"), D=D, sin=sin, sout=sout, opt=dict(padding=None, rdil=rd, ldil=None, flags=[True] * D),
                        g=np.eye(D, dtype=int).tolist(), use_bias=use_bias, shift=True)
